@@ -681,6 +681,7 @@ def call_lua_sandbox(
 
     # Call the Lua function in the given module
     stack_len = len(ctx.expand_stack)
+    env_stack_len = len(ctx.lua_env_stack)
     ctx.expand_stack.append("Lua:{}:{}()".format(modname, modfn))
     if TYPE_CHECKING:
         assert ctx.lua_invoke is not None
@@ -713,7 +714,11 @@ def call_lua_sandbox(
             ctx.expand_stack.pop()
     # print("Lua call {} returned: ok={!r} text={!r}"
     #       .format(invoke_args, ok, text))
-    if len(ctx.lua_env_stack) > 0:
+    # Remove the environment _lua_invoke() pushed for this call, and any
+    # further entry module code left behind (_python_append_env() is visible
+    # to modules): a leftover entry would keep the next top-level #invoke
+    # from resetting the sandbox, and the module's globals would live on.
+    while len(ctx.lua_env_stack) > env_stack_len:
         ctx.lua_env_stack.pop()
     if len(ctx.lua_frame_stack) > 0:
         ctx.lua_frame_stack.pop()
